@@ -2,6 +2,7 @@ import DaeVerif.C18.Proofs
 import DaeVerif.C18.History
 import DaeVerif.C18.Names
 import DaeVerif.C18.Normalize
+import DaeVerif.C18.ConnProofs
 /-!
 # C18 — property theorems
 
@@ -754,7 +755,7 @@ some bootstrap resolver. -/
 theorem real_set_only_from_positive_probe (w0 : World)
     (hc : w0.cache = []) (hk : w0.know = []) (hr : w0.realSet = []) (es : List Event) (d : Str)
     (h : d ∈ (run w0 es).realSet) :
-    ∃ x ∈ trace w0 es, ∃ ans, x.2 = .probeDone d ans ∧ x.1.nboot ≠ 0 ∧
+    ∃ x ∈ trace w0 es, ∃ ans, (x.2 = .probeDone d ans ∨ ∃ t0, x.2 = .probeFinish d t0 ans) ∧ x.1.nboot ≠ 0 ∧
       ((probeResult x.1 ans).ip4 || (probeResult x.1 ans).ip6) = true ∧
       ((probeResult x.1 ans).err4 && (probeResult x.1 ans).err6) = false := by
   have inv := (Inv.init w0 hc hk hr).run es
@@ -779,7 +780,7 @@ theorem genuine_name_has_witness (w0 : World)
     isIPLike d = false ∧
     ((∃ x ∈ trace w0 es, ∃ ck od, Stored x ck od ∧ baseKeyOf ck = cacheKey d dst.is4 ∧
         x.1.now ≤ (run w0 es).now ∧ (run w0 es).now < od) ∨
-     (∃ x ∈ trace w0 es, ∃ ans, x.2 = .probeDone d ans ∧ x.1.nboot ≠ 0 ∧
+     (∃ x ∈ trace w0 es, ∃ ans, (x.2 = .probeDone d ans ∨ ∃ t0, x.2 = .probeFinish d t0 ans) ∧ x.1.nboot ≠ 0 ∧
         ((probeResult x.1 ans).ip4 || (probeResult x.1 ans).ip6) = true ∧
         ((probeResult x.1 ans).err4 && (probeResult x.1 ans).err6) = false)) := by
   unfold genuine at h
@@ -921,5 +922,342 @@ example :
     -- once the negative entry expired the name is probed again
     (chooseDialTarget { w with now := 9 } 2 ⟨true, 0x01020304, 443⟩ "nx.test".toList).2.probeReq
       = some "nx.test".toList := by decide
+
+/-! ## phase 3 — the probe is asynchronous
+
+`probeAndUpdateRealDomain` blocks in the resolvers; connections, DNS answers, janitor ticks and reloads go
+on meanwhile. The history theorems above (`knowledge_*`, `real_set_*`, `genuine_name_has_witness`) are over
+the extended alphabet: `probeStart`/`probeFinish` anywhere in the history, `negCleanup`, `newGeneration`. -/
+
+/-- the synchronous probe of the earlier phases is "start, then finish at once". -/
+theorem probe_is_start_then_finish (w : World) (d : Str) (ans : List Ans) :
+    probe w d ans =
+      if (lookupReal w d).2.1 then (lookupReal w d).1
+      else probeFinish (lookupReal w d).1 d (lookupReal w d).1.now ans := by
+  unfold probe probeFinish
+  rcases lookupReal w d with ⟨w1, known, real⟩
+  cases known <;> rfl
+
+/-- "no such name" is remembered from the probe's START (`now := time.Now()` is taken before the
+lookups): the negative entry ends `realDomainNegativeCacheTTL` after the start, however long the
+resolvers took — and until then the name is neither used nor probed again. -/
+theorem negative_entry_stamped_from_probe_start (w : World) (d : Str) (t0 t : Int) (ans : List Ans)
+    (hb : w.nboot ≠ 0)
+    (he : ((probeResult w ans).err4 && (probeResult w ans).err6) = false)
+    (hn : (!(probeResult w ans).ip4 && !(probeResult w ans).ip6) = true)
+    (hrs : w.realSet.contains d = false) :
+    probeFinish w d t0 ans = { w with neg := w.neg.put d (t0 + w.negTtl) } ∧
+    (lookupReal { probeFinish w d t0 ans with now := t } d).2 = (decide (t < t0 + w.negTtl), false) := by
+  have e1 : probeFinish w d t0 ans = { w with neg := w.neg.put d (t0 + w.negTtl) } := by
+    unfold probeFinish probeResult at *
+    rw [if_neg hb]
+    simp only [he, hn, Bool.false_eq_true, if_false, if_true]
+  refine ⟨e1, ?_⟩
+  rw [e1]
+  unfold lookupReal
+  simp only [hrs, Bool.false_eq_true, if_false, Assoc.get_put_self]
+  by_cases hl : t < t0 + w.negTtl <;> simp [hl]
+
+example :
+    let w : World := { mode := .domain, nboot := 1, now := 500000000 }
+    -- started at 0.4 s, the resolver said "no such name" at 0.5 s: gone at 10.4 s, not at 10.5 s
+    (lookupReal { probeFinish w "nx.test".toList 400000000 [⟨false, false, false, false⟩] with now := 10399999999 } "nx.test".toList).2 = (true, false) ∧
+    (lookupReal { probeFinish w "nx.test".toList 400000000 [⟨false, false, false, false⟩] with now := 10400000000 } "nx.test".toList).2 = (false, false) := by
+  decide
+
+/-- **singleflight, over all interleavings**: whatever sequence of connections, probe completions,
+cancellations, DNS traffic, janitor ticks, clock steps and reloads happens, there is never more than one
+probe of a name in flight … -/
+theorem one_probe_in_flight_per_name (es : List SysEv) :
+    ((Sys.run {} es).pending.map (·.1)).Nodup :=
+  Sys.run_nodup (s := {}) (by simp [Sys.NodupPending]) es
+
+/-- … because a trigger for a name whose probe is in flight joins that probe and changes nothing. -/
+theorem trigger_joins_probe_in_flight (s : Sys) (d : Str) (t0 : Int) (h : (d, t0) ∈ s.pending) :
+    s.start d = s := by
+  unfold Sys.start
+  rw [if_pos (List.any_eq_true.2 ⟨(d, t0), h, by simp⟩)]
+
+example :
+    let s0 : Sys := { w := { mode := .domain, nboot := 1 } }
+    let s1 := (s0.choose 2 ⟨true, 0x01020304, 443⟩ "new.test".toList).1
+    let s2 := (s1.choose 3 ⟨true, 0x01020305, 443⟩ "new.test".toList).1
+    s1.pending = [("new.test".toList, 0)] ∧ s2.pending = s1.pending ∧
+    -- a positive completion verifies the name for both flows
+    ((s2.finish "new.test".toList [⟨true, false, false, false⟩]).choose 2 ⟨true, 0x01020304, 443⟩ "new.test".toList).2.target
+      = "new.test:443".toList := by decide
+
+/-! ### the janitor's sweep (`cleanupNegativeCaches`) -/
+
+/-- the negative set never holds two entries of one name (in every reachable world) … -/
+theorem negative_set_has_one_entry_per_name (w0 : World) (h0 : w0.neg = []) (es : List Event) :
+    ((run w0 es).neg.map (·.1)).Nodup :=
+  run_negNodup (w := w0) (by rw [h0]; exact Assoc.nodup_nil) es
+
+/-- … hence the sweep is invisible: `ChooseDialTarget` (target, re-route flag, IP flag, probe request)
+and `lookupRealDomainCache` answer the same before and after it, for every name. -/
+theorem neg_cleanup_invisible (w : World) (hnd : (w.neg.map (·.1)).Nodup) (ob : Nat) (dst : Dst) (d : Str) :
+    (chooseDialTarget (negCleanup w) ob dst d).2 = (chooseDialTarget w ob dst d).2 ∧
+    (lookupReal (negCleanup w) d).2 = (lookupReal w d).2 := by
+  refine ⟨?_, (lookupReal_negCleanup hnd d).1⟩
+  rw [chooseDialTarget_eq, chooseDialTarget_eq]
+  have := (decideMode_negCleanup hnd ob dst d).1
+  simp only []
+  rw [this]
+  split <;> rfl
+
+example :
+    let w : World := { mode := .domain, now := 20, neg := [("old.test".toList, 9), ("nx.test".toList, 30)] }
+    (negCleanup w).neg = [("nx.test".toList, 30)] ∧
+    (chooseDialTarget (negCleanup w) 2 ⟨true, 1, 443⟩ "old.test".toList).2.probeReq = some "old.test".toList ∧
+    (chooseDialTarget (negCleanup w) 2 ⟨true, 1, 443⟩ "nx.test".toList).2.probeReq = none := by decide
+
+/-! ### reloads -/
+
+/-- a new generation starts with an empty verified set and an empty negative set: right after a
+reload only DNS knowledge (carried over by the DNS store) makes a name genuine. -/
+theorem new_generation_keeps_only_dns_knowledge (w : World) (m : Mode) (n : Nat) (dst : Dst) (d : Str)
+    (h : genuine (newGeneration w m n) dst d = true) :
+    (hasKnowledge w (cacheKey d dst.is4)).2 = true ∧ (newGeneration w m n).neg = [] ∧
+    (newGeneration w m n).realSet = [] := by
+  unfold genuine at h
+  simp only [Bool.and_eq_true, Bool.not_eq_true', Bool.or_eq_true] at h
+  refine ⟨?_, rfl, rfl⟩
+  rcases h.2 with hk | hr
+  · have e1 := (hasKnowledge_true_iff (newGeneration w m n) (cacheKey d dst.is4)).1 hk
+    exact (hasKnowledge_true_iff w (cacheKey d dst.is4)).2 e1
+  · simp [newGeneration] at hr
+
+example :
+    let w : World := { mode := .domain, now := 5, realSet := ["v.test".toList], realAdds := 1, know := [("k.test.1".toList, 9)] }
+    genuine w ⟨true, 1, 443⟩ "v.test".toList = true ∧
+    genuine (newGeneration w .domain 1) ⟨true, 1, 443⟩ "v.test".toList = false ∧
+    genuine (newGeneration w .domain 1) ⟨true, 1, 443⟩ "k.test".toList = true := by decide
+
+/-! ### a failing hook inside `__updateDnsCacheDeadline` -/
+
+/-- fault at either hook of a DNS cache update: all or nothing. A failing `NewCache` leaves cache and
+knowledge untouched; a failing cache-access callback (the kernel map batch update) is reported, but the
+answer has been stored and its knowledge remembered — the client got that answer, the name counts as
+resolved through dae. -/
+theorem dns_update_fault_all_or_nothing (w : World) (host : Str) (q : Nat) (ttl : Int) (key : Str) :
+    (dnsUpdateF w host q ttl key .newCache).1 = w ∧
+    (dnsUpdateF w host q ttl key .accessCallback).1 = (dnsUpdate w host q ttl key).1 ∧
+    (dnsUpdateF w host q ttl key .none).1 = (dnsUpdate w host q ttl key).1 := by
+  have hb : (dnsUpdate w host q ttl key).2 = false → (dnsUpdate w host q ttl key).1 = w := by
+    intro hf
+    rw [dnsUpdate_eq] at hf ⊢
+    split
+    · rfl
+    · rename_i hp; rw [if_neg hp] at hf; simp at hf
+  cases h : (dnsUpdate w host q ttl key).2 with
+  | true => simp [dnsUpdateF, h]
+  | false => simp [dnsUpdateF, h, hb h]
+
+example :
+    (hasKnowledge (dnsUpdateF {} "a.test".toList 1 600000000000 [] .accessCallback).1 (cacheKey "a.test".toList true)).2 = true ∧
+    (dnsUpdateF {} "a.test".toList 1 600000000000 [] .accessCallback).2 = (true, true) ∧
+    (hasKnowledge (dnsUpdateF {} "a.test".toList 1 600000000000 [] .newCache).1 (cacheKey "a.test".toList true)).2 = false := by decide
+
+/-! ## phase 3 — from the accepted connection to the dial (`handleConn`) -/
+
+/-- `shouldTryTcpSniff` spelled out. -/
+theorem sniff_policy (cfg : SniffCfg) (w : World) (tp : Bool) (ob port : Nat) :
+    shouldTryTcpSniff cfg w tp ob port = false ↔
+      (tp = false ∨ w.mode = .ip ∨ ob = 0 ∨ ob = 1 ∨ port ∈ cfg.excluded) := by
+  unfold shouldTryTcpSniff
+  cases tp <;> cases hm : w.mode <;> by_cases h0 : ob = 0 <;> by_cases h1 : ob = 1 <;>
+    by_cases hp : port ∈ cfg.excluded <;> simp [h0, h1, hp]
+
+/-- **A connection that is not sniffed dials the destination IP**: sniffing disabled (what the
+constructor sets for `dial_mode: ip`), dial mode ip, kernel verdict direct or block, or a destination
+port on the exclusion list — whatever the client sends, in every dial mode, the sniff negative cache is
+not touched, no name reaches the dial decision, and every dial `routeDial` makes (first attempt and
+retry, kernel outbound or the one userspace routing picks) goes to the converged original destination
+as an IP dial. -/
+theorem conn_not_sniffed_dials_ip (cfg : SniffCfg) (w : World) (s : SniffNeg) (tp : Bool) (kob : Option Nat)
+    (loc : Dst) (key : Str) (p : Payload) (route : Str → Option Nat) (nOut : Nat) (ff : Bool)
+    (settle : World → Option Str → World) (hs : ∀ w', settle w' none = w')
+    (h : tp = false ∨ w.mode = .ip ∨ kob = some 0 ∨ kob = some 1 ∨ (converge loc).port ∈ cfg.excluded) :
+    (handleConn cfg w s tp kob loc key p route nOut ff settle).1 = w ∧
+    (handleConn cfg w s tp kob loc key p route nOut ff settle).2.1 = s ∧
+    (handleConn cfg w s tp kob loc key p route nOut ff settle).2.2.1 = [] ∧
+    ∀ o ∈ (handleConn cfg w s tp kob loc key p route nOut ff settle).2.2.2, o.outbound.isSome = true →
+      o.target = fmtAddrPort (converge loc) ∧ o.dialIp = true := by
+  have hpol : shouldTryTcpSniff cfg w tp (kob.getD outboundControlPlaneRouting) (converge loc).port = false := by
+    rw [sniff_policy]
+    rcases h with h | h | h | h | h
+    · exact Or.inl h
+    · exact Or.inr (Or.inl h)
+    · exact Or.inr (Or.inr (Or.inl (by rw [h]; rfl)))
+    · exact Or.inr (Or.inr (Or.inr (Or.inl (by rw [h]; rfl))))
+    · exact Or.inr (Or.inr (Or.inr (Or.inr h)))
+  have hd : connDomain cfg w s tp (kob.getD outboundControlPlaneRouting) (converge loc) key p = (s, []) := by
+    rw [connDomain_eq, if_pos hpol]
+  have hr := routeDial_ipRow w (kob.getD outboundControlPlaneRouting) (converge loc) [] route nOut ff settle hs (Or.inr rfl)
+  rw [handleConn_eq, hd]
+  exact ⟨hr.1, rfl, rfl, hr.2⟩
+
+/-- the same when sniffing is suppressed for the flow signature by the negative cache. -/
+theorem conn_suppressed_dials_ip (cfg : SniffCfg) (w : World) (s : SniffNeg) (tp : Bool) (kob : Option Nat)
+    (loc : Dst) (key : Str) (p : Payload) (route : Str → Option Nat) (nOut : Nat) (ff : Bool)
+    (settle : World → Option Str → World) (hs : ∀ w', settle w' none = w')
+    (h : (sniffSkip cfg s key w.now).2 = true) :
+    (handleConn cfg w s tp kob loc key p route nOut ff settle).2.2.1 = [] ∧
+    ∀ o ∈ (handleConn cfg w s tp kob loc key p route nOut ff settle).2.2.2, o.outbound.isSome = true →
+      o.target = fmtAddrPort (converge loc) ∧ o.dialIp = true := by
+  have hd : (connDomain cfg w s tp (kob.getD outboundControlPlaneRouting) (converge loc) key p).2 = [] := by
+    rw [connDomain_eq]
+    split
+    · rfl
+    · rfl
+  have hr := routeDial_ipRow w (kob.getD outboundControlPlaneRouting) (converge loc) [] route nOut ff settle hs (Or.inr rfl)
+  rw [handleConn_eq, hd]
+  exact ⟨rfl, hr.2⟩
+
+/-- **A sniffed connection is dialled by the table**: sniffing applies, is not suppressed, and the
+sniffer found `d` — then `handleConn` is `routeDial` for the kernel's outbound (userspace routing when
+the tuple is missing), the converged destination and exactly that `d`; the flow signature's failure
+count is cleared. All theorems about `routeDial` / `chooseProxyDialer` / `ChooseDialTarget` apply. -/
+theorem conn_sniffed_is_dialled_by_the_table (cfg : SniffCfg) (w : World) (s : SniffNeg) (tp : Bool)
+    (kob : Option Nat) (loc : Dst) (key : Str) (p : Payload) (d : Str) (route : Str → Option Nat) (nOut : Nat)
+    (ff : Bool) (settle : World → Option Str → World)
+    (hpol : shouldTryTcpSniff cfg w tp (kob.getD outboundControlPlaneRouting) (converge loc).port = true)
+    (hskip : (sniffSkip cfg s key w.now).2 = false) (hout : sniffOutcome p = some d) :
+    handleConn cfg w s tp kob loc key p route nOut ff settle =
+      ((routeDial w (kob.getD outboundControlPlaneRouting) (converge loc) d route nOut ff settle).1,
+       (sniffSkip cfg s key w.now).1.del key, d,
+       (routeDial w (kob.getD outboundControlPlaneRouting) (converge loc) d route nOut ff settle).2) := by
+  have hd : connDomain cfg w s tp (kob.getD outboundControlPlaneRouting) (converge loc) key p =
+      ((sniffSkip cfg s key w.now).1.del key, d) := by
+    rw [connDomain_eq, hpol, hskip, hout]
+    simp
+  rw [handleConn_eq, hd]
+
+/-- what the sniffers hand over for a Host header value / a TLS server name, and the dial target
+built from it when it is bracket-free: `JoinHostPort(normalised value, destination port)`. -/
+theorem sniffed_host_value_target (raw : Str) (port : Nat) :
+    (trimSpace raw ≠ [] → sniffOutcome (.http (some raw)) = some (normalizeDomain (trimSpace raw))) ∧
+    (trimSpace raw = [] → sniffOutcome (.http (some raw)) = none) ∧
+    sniffOutcome (.tls (some raw)) = some (normalizeDomain (dropDot raw)) ∧
+    (∀ v, (v = trimSpace raw ∨ v = dropDot raw) →
+      hasChar '[' (preNorm v) = false ∧ hasChar ']' (preNorm v) = false →
+      splitHostPort (nameTarget (normalizeDomain v) port).1 = some (normalizeDomain v, itoa port)) := by
+  refine ⟨fun h => ?_, fun h => ?_, rfl, fun v _ hb => (sniffed_value_target v port hb).2⟩
+  · simp [sniffOutcome, h]
+  · simp [sniffOutcome, h]
+
+example : sniffOutcome (.http (some " Example.COM:8080 ".toList)) = some "example.com".toList ∧
+    sniffOutcome (.http (some "  ".toList)) = none ∧ sniffOutcome (.http none) = none ∧
+    sniffOutcome (.tls (some "Example.com.".toList)) = some "example.com".toList ∧
+    sniffOutcome (.http (some "[2001:db8::1]:8080".toList)) = some "2001:db8::1".toList ∧
+    sniffOutcome .silent = none := by decide
+
+/-- the routing tuple is missing (handed over too early, expired …): the flow is routed in the control
+plane — in every dial mode the outbound is the routing answer for the sniffed name. -/
+theorem conn_missing_tuple_routes_in_userspace (cfg : SniffCfg) (w : World) (s : SniffNeg) (tp : Bool)
+    (loc : Dst) (key : Str) (p : Payload) (route : Str → Option Nat) (nOut : Nat)
+    (settle : World → Option Str → World) :
+    let d := (connDomain cfg w s tp outboundControlPlaneRouting (converge loc) key p).2
+    (handleConn cfg w s tp none loc key p route nOut false settle).2.2.2 =
+      [(chooseProxyDialer w outboundControlPlaneRouting (converge loc) d route nOut).2] ∧
+    ((chooseProxyDialer w outboundControlPlaneRouting (converge loc) d route nOut).2.outbound.isSome = true →
+      (chooseProxyDialer w outboundControlPlaneRouting (converge loc) d route nOut).2.outbound = route d) := by
+  intro d
+  refine ⟨?_, ?_⟩
+  · rw [handleConn_eq]
+    simp only [Option.getD_none]
+    unfold routeDial
+    simp only [Bool.not_false, Bool.or_true, if_true]
+    rfl
+  · rw [control_plane_routing_dial]
+    cases route d with
+    | none => intro h; simp at h
+    | some ob2 =>
+      simp only []
+      split
+      · intro h; simp at h
+      · intro _; rfl
+
+example :
+    let w : World := { mode := .domainPlus }
+    let route : Str → Option Nat := fun n => if n = "re.test".toList then some 2 else some 4
+    -- no tuple, TLS hello for re.test: routed by the name to group 2, the name is the target (domain+)
+    (handleConn {} w [] true none ⟨false, 0xffff01020304, 443⟩ "k".toList (.tls (some "Re.Test.".toList)) route 5 false (fun w _ => w)).2.2
+      = ("re.test".toList, [{ outbound := some 2, target := "re.test:443".toList, dialIp := false, probeReq := none }]) ∧
+    -- kernel verdict direct: not sniffed, the (converged) IP
+    (handleConn {} w [] true (some 0) ⟨false, 0xffff01020304, 443⟩ "k".toList (.tls (some "re.test".toList)) route 5 false (fun w _ => w)).2.2
+      = ([], [{ outbound := some 0, target := "1.2.3.4:443".toList, dialIp := true, probeReq := none }]) := by decide
+
+/-- the socket mark that accompanies the dial: the routing answer's after a re-route, the kernel
+tuple's otherwise; `so_mark_from_dae` when that is zero. -/
+theorem dial_mark_follows_reroute (w : World) (ob : Nat) (dst : Dst) (d : Str) (pm sm : Nat) (rm : Str → Nat) :
+    (((chooseDialTarget w ob dst d).2.reroute = true ∨ ob = outboundControlPlaneRouting) →
+      dialMark w ob dst d pm sm rm = if rm d = 0 then sm else rm d) ∧
+    (((chooseDialTarget w ob dst d).2.reroute = false ∧ ob ≠ outboundControlPlaneRouting) →
+      dialMark w ob dst d pm sm rm = if pm = 0 then sm else pm) := by
+  unfold dialMark
+  refine ⟨fun h => ?_, fun h => ?_⟩
+  · have : ((chooseDialTarget w ob dst d).2.reroute || ob == outboundControlPlaneRouting) = true := by
+      rcases h with h | h
+      · simp [h]
+      · simp [h]
+    simp only [this, if_true]
+  · have : ((chooseDialTarget w ob dst d).2.reroute || ob == outboundControlPlaneRouting) = false := by
+      simp [h.1, h.2]
+    simp only [this, Bool.false_eq_true, if_false]
+
+example : dialMark { mode := .domainCao } 2 ⟨true, 1, 443⟩ "re.test".toList 5 256 (fun _ => 119) = 119 ∧
+    dialMark { mode := .domainPlus } 2 ⟨true, 1, 443⟩ "re.test".toList 5 256 (fun _ => 119) = 5 ∧
+    dialMark { mode := .domainPlus } 2 ⟨true, 1, 443⟩ "re.test".toList 0 256 (fun _ => 119) = 256 := by decide
+
+/-! ### the sniff negative cache, over all histories -/
+
+/-- **Sniffing is suppressed for a flow signature only after `tcpSniffFailureThreshold` failed sniffs
+of that signature, the last of them less than `tcpSniffNegativeCacheTTL` ago** — for every history of
+sniff attempts (all signatures interleaved), starting from the empty cache. In particular a single
+failed sniff never withholds the name from later connections. -/
+theorem sniff_suppression_needs_threshold_failures (cfg : SniffCfg) (hthr : 0 < cfg.thr) (es : List SniffEv)
+    (key : Str) (now : Int) (h : (sniffSkip cfg (sniffRun cfg [] es) key now).2 = true) :
+    cfg.thr ≤ countFails key es ∧ ∃ t, SniffEv.fail key t ∈ es ∧ now < t + cfg.ttl := by
+  have inv := SniffInv.run hthr es (SniffInv.init cfg)
+  simp only [List.nil_append] at inv
+  unfold sniffSkip at h
+  split at h
+  · simp at h
+  · split at h
+    · simp at h
+    · rename_i f e hg
+      split at h
+      · simp at h
+      · rename_i hlive
+        simp only [decide_eq_true_eq] at h
+        obtain ⟨_, _, hc, hm⟩ := inv key f e hg
+        exact ⟨by omega, e - cfg.ttl, hm, by omega⟩
+
+/-- a successful sniff clears the signature's count; an entry stops suppressing at its expiry. -/
+theorem sniff_success_clears_and_entries_expire (cfg : SniffCfg) (s : SniffNeg) (key : Str) (now : Int) :
+    ((sniffSkip cfg s key now).2 = false → (sniffStep cfg s (.ok key now)).get key = none) ∧
+    (∀ f e, s.get key = some (f, e) → e ≤ now → (sniffSkip cfg s key now).2 = false) := by
+  refine ⟨fun h => ?_, fun f e hg he => ?_⟩
+  · show (if (sniffSkip cfg s key now).2 = true then (sniffSkip cfg s key now).1
+        else (sniffSkip cfg s key now).1.del key).get key = none
+    rw [h]
+    simp only [Bool.false_eq_true, if_false]
+    exact Assoc.get_del_self _ _
+  · unfold sniffSkip
+    split
+    · rfl
+    · rw [hg]; simp only [he, if_true]
+
+example :
+    let cfg : SniffCfg := {}
+    let k := "203.0.113.9:443/-".toList
+    -- two failures: still sniffed; the third suppresses; a success in between starts over
+    (sniffSkip cfg (sniffRun cfg [] [.fail k 0, .fail k 1]) k 2).2 = false ∧
+    (sniffSkip cfg (sniffRun cfg [] [.fail k 0, .fail k 1, .fail k 2]) k 3).2 = true ∧
+    (sniffSkip cfg (sniffRun cfg [] [.fail k 0, .fail k 1, .ok k 2, .fail k 3, .fail k 4]) k 5).2 = false ∧
+    -- suppression ends tcpSniffNegativeCacheTTL after the last failure
+    (sniffSkip cfg (sniffRun cfg [] [.fail k 0, .fail k 1, .fail k 2]) k 600000000002).2 = false := by decide
 
 end DaeVerif.C18.Props
